@@ -89,6 +89,9 @@ def build(tier: str) -> Cases:
         cs.whole(s, False, "corpus")
         if "." in s and (thorough or s in appendix or r.random() < 0.15):
             cs.whole(s, True, "corpus")
+    for s in G.long_index_sources():
+        cs.whole(s, False, "corpus")
+        cs.whole(s, True, "corpus")
     # 2. grammar-generated templates
     gen = [G.g_template(r) for _ in range(2500 if thorough else 260)]
     gen = [g for g in gen if len(g) <= 400]
